@@ -2,6 +2,7 @@ package main
 
 import (
 	"fmt"
+	"go/constant"
 	"go/token"
 	"go/types"
 	"sort"
@@ -425,10 +426,56 @@ func c20Combinators(w *World, r *Report) {
 	}{{"Include", true, false}, {"Exclude", false, true}} {
 		f := get(c.fn)
 		why := ""
-		if len(f.AnonFuncs) != 1 {
-			why = "not a single closure"
-		} else {
+		c20Flag = nil
+		if len(f.AnonFuncs) == 1 {
 			why = c20Disjunction(sym, f.AnonFuncs[0], c.hit, c.miss)
+		} else if h := tailDelegate(f); h != nil && len(h.AnonFuncs) == 1 && len(f.AnonFuncs) == 0 {
+			// both combinators built by one function that is told, by a constant, what a match means
+			why = "the shared builder is not told what a match means by a constant"
+			cl := h.AnonFuncs[0]
+			for _, in := range f.Blocks[0].Instrs {
+				call, isC := in.(*ssa.Call)
+				if !isC || call.Call.StaticCallee() != h {
+					continue
+				}
+				for i, a := range call.Call.Args {
+					k, isK := a.(*ssa.Const)
+					if !isK || k.Value == nil || k.Value.Kind() != constant.Bool || i >= len(h.Params) {
+						continue
+					}
+					flagVal := constant.BoolVal(k.Value)
+					// the closure's free variable that stands for that parameter
+					for _, hb := range h.Blocks {
+						for _, hin := range hb.Instrs {
+							mc, isMC := hin.(*ssa.MakeClosure)
+							if !isMC || mc.Fn != ssa.Value(cl) {
+								continue
+							}
+							for j, bnd := range mc.Bindings {
+								al, isAl := bnd.(*ssa.Alloc)
+								if !isAl || j >= len(cl.FreeVars) || cellSingleStore(al) != ssa.Value(h.Params[i]) {
+									continue
+								}
+								fv := cl.FreeVars[j]
+								c20Flag = func(v ssa.Value) (bool, bool) {
+									neg := false
+									if not, ok := v.(*ssa.UnOp); ok && not.Op == token.NOT {
+										v, neg = not.X, true
+									}
+									if ld, ok := v.(*ssa.UnOp); ok && ld.Op == token.MUL && ld.X == ssa.Value(fv) {
+										return flagVal != neg, true
+									}
+									return false, false
+								}
+								why = c20Disjunction(sym, cl, c.hit, c.miss)
+							}
+						}
+					}
+				}
+			}
+			c20Flag = nil
+		} else {
+			why = "not a single closure"
 		}
 		r.Check(why == "", "R20.2", c.fn, f.Pos(), fmt.Sprintf("some member matches ⇒ %v; none ⇒ %v; nil members skipped", c.hit, c.miss), c.fn+" is not the (negated) disjunction of its member filters: "+why)
 	}
@@ -466,6 +513,10 @@ func c20Combinators(w *World, r *Report) {
 	}
 	r.Check(why == "", "R20.2", "IncludeState", is.Pos(), "true ⇒ IsState; false ⇒ Exclude(IsState)", "IncludeState does not select state / everything-but-state: "+why)
 }
+
+// c20Flag: while set, gives the constant a value of the closure under analysis
+// stands for (the builder's flag parameter, fixed by the caller).
+var c20Flag func(ssa.Value) (bool, bool)
 
 // c20Disjunction: closure cl(sn) ranges over the captured member filters and
 // returns hit as soon as a non-nil member accepts sn, miss when none does.
@@ -554,11 +605,17 @@ func c20DisjunctionIn(sym *Sym, cl *ssa.Function, isList func(ssa.Value) bool, n
 		if !ok {
 			continue
 		}
-		c, isC := ret.Results[0].(*ssa.Const)
-		if !isC || c.Value == nil {
+		var val bool
+		if c, isC := ret.Results[0].(*ssa.Const); isC && c.Value != nil {
+			val = c.Value.ExactString() == "true"
+		} else if fv, known := false, false; c20Flag != nil {
+			if fv, known = c20Flag(ret.Results[0]); !known {
+				return "a result that is not a constant"
+			}
+			val = fv
+		} else {
 			return "a result that is not a constant"
 		}
-		val := c.Value.ExactString() == "true"
 		if body[b] || loops[0].Header.Dominates(b) && b != loops[0].Header && reachesLatchFree(b, loops[0]) {
 			// a return inside an iteration
 			nIn++
